@@ -53,6 +53,8 @@ def det_value(dist_spec):
         return float(onp.float32(dist_spec["c"]))
     if dist_spec["k"] == "normal" and dist_spec["sigma"] == 0:
         return float(onp.float32(max(dist_spec["mu"], 0.0)))
+    if dist_spec["k"] == "train":
+        return None  # constant, but computed as min + alpha * (max - min) in float32: not asserted bit-exactly here
     return None
 
 
